@@ -13,6 +13,7 @@ EXPLANATION = (
     "(R-C03-pause) nothing between Scheduler::poll and Scheduler::pause in consume can push onto the ready queue; Scheduler::pause has no other caller; "
     "(R-C03-cache) the packet cache taken in handle_device_payload is put back on every path; "
     "(R-C03-exits) the router loop can only end through a channel receive error. "
+    "(R-C03-handle, deferred disconnection) in handle_device_payload no Scheduler::track/reschedule/pause and no consume/prepare_filter is reachable after the deferred handle_disconnection. "
     "NOT decided: liveness beyond absence of panics/loop exits, memory exhaustion, operator-only console events (Event::PrintStatus) are audited not proven.")
 
 ASSUMPTIONS = [
